@@ -5,6 +5,7 @@ From IBL.C08 Require Import Model Scan ScanProofs File.
 Import ListNotations.
 Open Scope Z_scope.
 Module P9 := IBL.C09.Proofs.
+Module M9 := IBL.C09.Model.
 Module G9 := IBL.C09.Grammar.
 
 Lemma lookup_app k a b :
